@@ -138,6 +138,19 @@ class SymWorld(object):
     def fail(self, label, detail):
         return self.ctx.check(False, label, detail)
 
+    def holds(self, cond):
+        """Does `cond` follow from the path condition?  True / False / None; nothing is recorded (used to pick the
+        cheaper of two sufficient formulations of an obligation)."""
+        import z3
+        neg = z3.simplify(z3.Not(self._z(cond)))
+        if z3.is_false(neg):
+            return True
+        neg = self.ctx._ctx_simplify(neg)
+        if z3.is_false(neg):
+            return True
+        r, _ = self.ctx._check(neg, obligation=True)
+        return True if r == "unsat" else (False if r == "sat" else None)
+
     def assume(self, cond):
         self.ctx.assume_expr(self._z(cond))
 
@@ -250,6 +263,9 @@ class ConcWorld(object):
     def fail(self, label, detail):
         self.failures.append({"label": label, "detail": detail})
         return False
+
+    def holds(self, cond):
+        return bool(cond)
 
     def assume(self, cond):
         if not cond:
